@@ -87,9 +87,9 @@ def explore(res, tag, subjects, phases=None, kind_to_key=None, derive_dep=None, 
         detail = {"subject": s.describe(), "rustc": v.to_json()}
         res.violation(key, detail, {"repro.rs": s.standalone() + "fn main() {}\n"})
         res.outcome("does-not-compile")
-    merged = {"stats": {}, "violations": [], "machinery": [], "crashes": []}
+    merged = {"stats": {}, "violations": [], "machinery": [], "crashes": [], "hangs": []}
     if active:
-        merged = e3.run_workspace(batches, phases=phases, timeout=timeout)
+        merged = e3.run_workspace(batches, phases=phases, timeout=timeout, budget=int(os.environ.get("VERIF_BUDGET", "120" if tag.startswith("quick/") else "900")))
     for m in merged["machinery"]:
         res.machinery_error(json.dumps(m)[:1500])
     for v in merged["violations"]:
@@ -108,6 +108,15 @@ def explore(res, tag, subjects, phases=None, kind_to_key=None, derive_dep=None, 
         detail = {"subject": s.describe() if s else c["id"], "returncode": c["returncode"], "stderr": c["stderr"]}
         res.violation(key, detail, replay.files_for_crash(s, c) if s else None)
         res.outcome("abort:" + str(c["phase"]))
+    for h in merged.get("hangs", []):
+        s = by_id.get(h["id"])
+        key = {"kind": "does-not-terminate", "phase": h.get("phase"), "config": s.cfg.describe() if s else None,
+               "repr": s.decl.repr if s else None,
+               "variants": [[x.ident, x.value] for x in s.decl.variants][:16] if s else None}
+        detail = {"subject": s.describe() if s else h["id"], "budget_s": h["budget_s"],
+                  "note": "a call into the generated code did not return within the budget, twice (second time alone with 3x the budget)"}
+        res.violation(key, detail, replay.files_for_crash(s, {"phase": h.get("phase"), "returncode": "timeout", "stderr": ""}) if s else None)
+        res.outcome("hang:" + str(h.get("phase")))
     done = 0
     for sid, t in merged["stats"].items():
         res.states += t["states"]
@@ -117,8 +126,13 @@ def explore(res, tag, subjects, phases=None, kind_to_key=None, derive_dep=None, 
             res.outcome(k, n)
         done += 1
     res.validated += done
-    crashed = {c["id"] for c in merged["crashes"]}
+    crashed = {c["id"] for c in merged["crashes"]} | {h["id"] for h in merged.get("hangs", [])}
     missing = [s.sid for s in active if s.sid not in merged["stats"] and s.sid not in crashed]
+    if merged.get("abandoned") and merged.get("hangs"):
+        # batches were cut short after repeated watchdog timeouts and at least one hang is confirmed: the verdict stands,
+        # the subjects not run are listed in the evidence instead of being a machinery error
+        res.extra["subjects_not_run_after_hangs"] = len(missing)
+        missing = []
     if missing:
         res.machinery_error("subjects without a result: %s" % missing[:10])
     res.extra.setdefault("subjects", 0)
